@@ -3,6 +3,7 @@ props_query.py — checks of C04 (neighbors rules), C09 (find_links), C05 (cache
 """
 import os
 import pickle
+from adapter import K_TYPED_BOOL, K_TYPED_INT
 import subprocess
 import sys
 
@@ -394,6 +395,9 @@ class C05(Check):
             c, d = rng.getrandbits(62), rng.getrandbits(62)
             for k in (c - c % 7 + 3, d - d % 7 + 3):
                 lines.append("nbrs %s 1 1 %d" % (v, k + 7 if k % 5 == 2 else k))
+            # partial(f, True) and partial(f, 1): equal bound arguments, different filters, back to back
+            lines.append("nbrs %s 1 1 %d" % (v, K_TYPED_BOOL))
+            lines.append("nbrs %s 1 1 %d" % (v, K_TYPED_INT))
         # traversals and searches RESTRICTED TO A UNIVERSE: what they list depends on membership as well as on links,
         # and membership changes (from either side) are among the mutations of the histories
         # (the SAME queries in every audit of a history: an answer remembered before a membership change is asked again)
